@@ -470,6 +470,119 @@ def _subs(t):
                 yield from _subs(x)
 
 
+class _PosUnknown(Exception):
+    pass
+
+
+def _ev_early(t, it, END, keys, a, b):
+    """evaluate a condition built from (it == end()), (*it == key) and their negations / comparisons under a = [it == end()],
+    b = [*it == key]; *it > key is taken as not b (the data is sorted and everything before it is <= key)"""
+    t = strip_cast(t)
+    if t[0] == 'un' and t[1] == '!':
+        return not _ev_early(t[2], it, END, keys, a, b)
+    if t[0] == 'op' and len(t) == 4 and t[1] in ('&&', '||'):
+        x = _ev_early(t[2], it, END, keys, a, b)
+        if t[1] == '&&' and not x:
+            return False
+        if t[1] == '||' and x:
+            return True
+        return _ev_early(t[3], it, END, keys, a, b)
+    if t[0] == 'op' and len(t) == 4 and t[1] in ('==', '!=', '<', '>', '<=', '>='):
+        l, r, o = strip_cast(t[2]), strip_cast(t[3]), t[1]
+        if {l, r} == {it, END} and o in ('==', '!='):
+            return a if o == '==' else not a
+        if r == ('deref', it) and l in keys:
+            l, r, o = r, l, {'<': '>', '>': '<', '<=': '>=', '>=': '<=', '==': '==', '!=': '!='}[o]
+        if l == ('deref', it) and r in keys:
+            return {'==': b, '!=': not b, '>': not b, '<=': b}.get(o) if o in ('==', '!=', '>', '<=') else (_ for _ in ()).throw(_PosUnknown(fmt_term(t)))
+    raise _PosUnknown(fmt_term(t)[:50])
+
+
+def _pos(f, t, itv, step, END, depth=0):
+    """Offset of an iterator/integer term relative to the gallop start `it`, as a piecewise-linear form over S (= step) and
+    E (= end() - it):  ('lin', cS, cE, k) | ('min', a, b).  it + x -> x; end() -> E; distance(it, end()) / end() - it -> E;
+    single-definition locals are looked through.  Anything else raises _PosUnknown."""
+    if depth > 12:
+        raise _PosUnknown('deep')
+    t = strip_cast(t)
+    while t[0] == 'cast':
+        t = strip_cast(t[2])
+    if t == itv:
+        return ('lin', 0, 0, 0)
+    if t == step:
+        return ('lin', 1, 0, 0)
+    if t == END:
+        return ('lin', 0, 1, 0)
+    if t[0] == 'lit' and isinstance(t[1], int):
+        return ('lin', 0, 0, t[1])
+    if t[0] == 'local' and len(t) == 3:
+        init = f.single_def(t[2])
+        if init:
+            return _pos(f, f.term(init, inline=False), itv, step, END, depth + 1)
+        raise _PosUnknown(fmt_term(t))
+    if t[0] == 'call' and t[1] == 'std::distance' and len(t[2]) == 2:
+        a, b = _pos(f, t[2][0], itv, step, END, depth + 1), _pos(f, t[2][1], itv, step, END, depth + 1)
+        return _pl_sub(b, a)
+    if t[0] == 'call' and t[1] == 'std::min' and len(t[2]) == 2:
+        return ('min', _pos(f, t[2][0], itv, step, END, depth + 1), _pos(f, t[2][1], itv, step, END, depth + 1))
+    if t[0] == 'call' and t[1] in ('std::next',) and len(t[2]) in (1, 2):
+        a = _pos(f, t[2][0], itv, step, END, depth + 1)
+        b = _pos(f, t[2][1], itv, step, END, depth + 1) if len(t[2]) == 2 else ('lin', 0, 0, 1)
+        return _pl_add(a, b)
+    if t[0] == 'op' and len(t) == 4 and t[1] in ('+', '-'):
+        a, b = _pos(f, t[2], itv, step, END, depth + 1), _pos(f, t[3], itv, step, END, depth + 1)
+        return _pl_add(a, b) if t[1] == '+' else _pl_sub(a, b)
+    if t[0] == 'op' and len(t) >= 3 and t[1] in ('+', '-') and len(t) == 4:
+        pass
+    raise _PosUnknown(fmt_term(t)[:50])
+
+
+def _pl_add(a, b):
+    if a[0] == 'lin' and b[0] == 'lin':
+        return ('lin', a[1] + b[1], a[2] + b[2], a[3] + b[3])
+    if a[0] == 'min' and b[0] == 'lin':
+        return ('min', _pl_add(a[1], b), _pl_add(a[2], b))
+    if b[0] == 'min' and a[0] == 'lin':
+        return ('min', _pl_add(a, b[1]), _pl_add(a, b[2]))
+    raise _PosUnknown('min + min')
+
+
+def _pl_sub(a, b):
+    if b[0] != 'lin':
+        raise _PosUnknown('- min')
+    return _pl_add(a, ('lin', -b[1], -b[2], -b[3]))
+
+
+def _pl_is_min_S_E(p):
+    return p[0] == 'min' and {p[1], p[2]} == {('lin', 1, 0, 0), ('lin', 0, 1, 0)}
+
+
+def _cmp_is_S_lt_E(f, a, itv, step, END):
+    """True / False / None: is the comparison atom equivalent to S < E (the probed position it + step is inside the data)?
+    (over the integers a <= b is a < b + 1)"""
+    if not (a[0] == 'op' and len(a) == 4 and a[1] in ('<', '<=', '>', '>=', '!=', '==')):
+        return None
+    try:
+        l, r = _pos(f, a[2], itv, step, END), _pos(f, a[3], itv, step, END)
+        d = _pl_sub(l, r) if r[0] == 'lin' else None
+    except _PosUnknown:
+        return None
+    if d is None or d[0] != 'lin':
+        return None
+    op = a[1]
+    cS, cE, k = d[1], d[2], d[3]
+    if op in ('>', '>='):
+        cS, cE, k, op = -cS, -cE, -k, {'>': '<', '>=': '<='}[op]
+    if op == '<=':
+        k, op = k - 1, '<'
+    if op != '<':
+        return False if (cS, cE) in ((1, -1), (-1, 1)) else None
+    # cS*S + cE*E + k < 0
+    if (cS, cE) == (1, -1):
+        return k == 0
+    return None
+
+
 def rules_c11(ctx):
     """clause-level rules for the multiset queries of MappedPGMIndex"""
     obs = []
@@ -590,14 +703,58 @@ def rules_c11(ctx):
     for (f, KEY, KEY_outer, starts) in ub_jobs:
         g = graph(f)
         END = ('call', M + '::end', (), THIS)
-        for r in f.returns():
-            k = kinds.kind_of_term(f.term(f.n(r)['ch'][0], inline=False))
+        def _named(t):
+            # a window bound held in a single-definition local (auto probe_first = it + step / 2)
+            t = strip_cast(t)
+            n_ = 0
+            while t[0] == 'local' and len(t) == 3 and f.single_def(t[2]) and n_ < 4:
+                t2 = strip_cast(f.term(f.single_def(t[2]), inline=False))
+                if kinds.kind_of_term(t2):
+                    break       # the gallop start itself (it = std::upper_bound(...)) stays a variable
+                t, n_ = t2, n_ + 1
+            return t
+        own = [r_ for r_ in f.returns() if f.n(r_)['ch']]
+        multi = any(strip_cast(f.term(f.n(r_)['ch'][0], inline=False))[0] in ('phi', 'cond') for r_ in own)
+        # the returns of an inlined helper are examined one by one only when its value is not a single expression
+        for r in own + ([r_ for r_ in f.all_ids() if f.n(r_)['c'] == 'InlinedReturn' and f.n(r_)['ch']] if multi else []):
+            if f.n(r)['c'] == 'ReturnStmt' and strip_cast(f.term(f.n(r)['ch'][0], inline=False))[0:1] == ('phi',):
+                continue        # the value of an inlined helper with several returns: each of them is examined on its own
+            rt = strip_cast(f.term(f.n(r)['ch'][0], inline=False))
+            k = kinds.kind_of_term(rt)
+            if not k and rt[0] == 'local' and len(rt) == 3 and f.single_def(rt[2]):
+                # `return it;` before the gallop: it = FIRST_GT/FIRST_GE(key) inside the PGM range is the answer when it is end()
+                # or its element differs from key (everything before it is <= key, and a different element at it is greater)
+                k0_ = kinds.kind_of_term(f.term(f.single_def(rt[2]), inline=True))
+                if k0_ and k0_[0] in ('FIRST_GT', 'FIRST_GE') and k0_[1] in (KEY, KEY_outer) and _pgm_range_ok(k0_, k0_[1]):
+                    A = ('op', '==', rt, END)
+                    dec = None
+                    rb_ = f.block_of(r)
+                    if rb_ is None and f.n(r)['c'] in ('ReturnStmt', 'InlinedReturn'):
+                        rb_ = f.block_of(f.n(r)['ch'][0])
+                    deps_ = [(f.term(g.cond(b_), inline=False), lab_, g.cond(b_)) for (b_, lab_) in g.transitive_control_deps(rb_[0])
+                             if g.cond(b_) and g.blocks[b_].get('term_c') == 'IfStmt'] if rb_ else []
+                    for (t, lab, cn) in deps_:
+                        # truth table over a = (it == end()), b = (*it == key): the path condition must imply a or not b
+                        try:
+                            ok_all = True
+                            for a_, b_ in ((False, True),):
+                                if _ev_early(strip_cast(t), rt, END, (KEY, KEY_outer), a_, b_) == lab:
+                                    ok_all = False      # the path is taken with it != end() and *it == key: the run may continue
+                            dec = ok_all if dec is None else (dec or ok_all)
+                        except _PosUnknown:
+                            pass
+                    obs.append(Ob('KIND', f, r, 'upper_bound(key) is FIRST_GT(key): the position found inside the PGM range is returned without galloping only when it is end() or its element differs from key',
+                                  f"`return {rt[1]}` " + ('under a test that excludes *it == key' if dec else 'on a path on which *it may equal key (the run of duplicates may continue past the window)'),
+                                  OK if dec else (UNDECIDED if dec is None else VIOLATED), arm='upper_bound'))
+                    continue
             if not k:
+                if f.n(r)['c'] == 'ReturnStmt' and rt[0] in ('cond', 'void'):
+                    continue
                 obs.append(Ob('KIND', f, r, 'upper_bound(key) is FIRST_GT(key)', 'unrecognised search', UNDECIDED, arm='upper_bound'))
                 continue
-            ok = k[0] == 'FIRST_GT' and k[1] == KEY
+            ok = k[0] == 'FIRST_GT' and k[1] in (KEY, KEY_outer)
             # window: [it + step/2, min(it + step, end())) with it = FIRST_GT(key) inside the PGM range
-            lo, hi = strip_cast(k[2]), strip_cast(k[3])
+            lo, hi = _named(k[2]), _named(k[3])
             itv = k0 = None
             if lo[0] == 'op' and lo[1] == '+' and lo[2][0] in ('local', 'param') and strip_cast(lo[3])[0] == 'op' and strip_cast(lo[3])[1] == '/' and strip_cast(lo[3])[3] == ('lit', 2):
                 itv, step = lo[2], strip_cast(strip_cast(lo[3])[2])
@@ -624,14 +781,23 @@ def rules_c11(ctx):
                     elif i0[0] == 'lit' and all(w[0] == 'op' and w[1] in ('*=', '<<=', '+=', '=') for w in ws):
                         step_ok = False
                         why = f"step starts at {fmt_term(i0)} and is updated by `{'; '.join(fmt_term(w) for w in ws)[:60]}`: `step / 2` is the last probed offset only if step starts at 1 and doubles"
-                if hi[0] == 'call' and hi[1] == 'std::min' and len(hi[2]) == 2:
-                    hi_ok = set(map(strip_cast, hi[2])) == {('op', '+', itv, step), END}
+                if hi[0] == 'call' and hi[1] == 'std::min' and len(hi[2]) == 2 and set(map(strip_cast, hi[2])) == {('op', '+', itv, step), END}:
+                    hi_ok = True
                 elif hi == END:
                     hi_ok = True    # [.., end()) is a valid (slower) window
                 elif hi == ('op', '+', itv, step):
                     hi_ok = False   # after the loop it + step may be past end()
                 else:
-                    hi_ok = None
+                    # any other spelling: its offset from `it` as a piecewise-linear form over S = step and E = end() - it
+                    try:
+                        ph = _pos(f, hi, itv, step, END)
+                        if _pl_is_min_S_E(ph) or ph == ('lin', 0, 1, 0):
+                            hi_ok = True
+                        else:
+                            hi_ok = False
+                            hi_form = ph
+                    except _PosUnknown:
+                        hi_ok = None
                 if itv[0] == 'param':
                     k0 = starts.get(itv)      # the kind of the argument the caller passes for `it`
                     kk = KEY_outer
@@ -648,7 +814,13 @@ def rules_c11(ctx):
                     if not (c and g.blocks[b].get('term_c') in ('WhileStmt', 'ForStmt')):
                         continue
                     atoms = _conj(strip_cast(f.term(c, inline=False)))
-                    pi = next((i for i, a in enumerate(atoms) if a[0] == 'op' and len(a) == 4 and ('deref', NEXT) in (strip_cast(a[2]), strip_cast(a[3]))), None)
+                    PROBES = (('deref', NEXT), ('index', itv, step))
+                    def _is_probe(x):
+                        x = strip_cast(x)
+                        if x in PROBES:
+                            return True
+                        return x[0] == 'index' and strip_cast(x[1]) == itv and strip_cast(x[2]) == step
+                    pi = next((i for i, a in enumerate(atoms) if a[0] == 'op' and len(a) == 4 and (_is_probe(a[2]) or _is_probe(a[3]))), None)
                     if pi is None:
                         continue
                     probe = atoms[pi]
@@ -660,7 +832,21 @@ def rules_c11(ctx):
                     guards = [a for a in atoms[:pi] if END in _subs(a)]
                     late = [a for a in atoms[pi + 1:] if END in _subs(a)]
                     b_ok = None
-                    for a in guards:
+                    # a bound spelled with offsets (step < remaining, step <= max_step): decided on the position algebra
+                    for a in atoms[:pi]:
+                        v = _cmp_is_S_lt_E(f, a, itv, step, END)
+                        if v is True:
+                            b_ok = True
+                            if a not in guards:
+                                guards.append(a)
+                        elif v is False and a not in guards:
+                            guards.append(a)
+                            b_ok = False if b_ok is None else b_ok
+                            why = f"the probe is guarded by `{fmt_term(a)[:60]}`, which is not equivalent to it + step < end()"
+                    for a in atoms[pi + 1:]:
+                        if _cmp_is_S_lt_E(f, a, itv, step, END) is not None and a not in late:
+                            late.append(a)
+                    for a in ([] if b_ok else guards):
                         if a[0] == 'op' and len(a) == 4:
                             l, rr, o = strip_cast(a[2]), strip_cast(a[3]), a[1]
                             if l == END:
